@@ -109,6 +109,11 @@ func (root *Root) ResolveExecutable(
 					opVars[vd.Name] = v
 				}
 			}
+			if _, ok := vd.Type.(*NonNull); ok && opVars[vd.Name] == nil {
+				// Neither a value nor a default for a variable that can not
+				// be null.
+				return nil, resError(vd.line, vd.col, "variable $%s of type %s is required but missing", vd.Name, vd.Type.Name())
+			}
 		}
 	}
 	result = map[string]interface{}{}
